@@ -22,8 +22,10 @@ class C20(Check):
                   "owns and [0, nb_local_tiles) (in range, injective, onto); the counts of all ranks add up to lmt*lnt (the "
                   "stored triangle for the symmetric collection); data_key/key2coords round trip; vpid < nb_vp; tile memory "
                   "ranges disjoint. Same for symmetric (lower with lnt <= lmt, upper on square tile grids), tabular, band and "
-                  "the diagonal vector distribution on square grids. Refuted with witnesses (findings): the key stored by "
-                  "the k-cyclic data_of, the vector ROW/COL distributions, the vector DIAG init on non-square grids. The "
+                  "the diagonal vector distribution on square grids; the key stored by data_of maps back to the tile for every "
+                  "kp,kq (k-cyclic data_of repaired by fix 12f6606, the earlier code is kept as a refuted regression "
+                  "witness). Refuted with witnesses (known findings): the vector ROW/COL distributions, the vector DIAG "
+                  "init on non-square grids. The "
                   "model is tied to the code by running every rank's view of the real collections against the extracted "
                   "model. The k-cyclic view is proved to be a permutation of the submatrix's tiles (cycle walking terminates, "
                   "injective, onto) composed with the plain functions. Partial: LAPACK storage offsets are modelled and "
@@ -432,9 +434,9 @@ C20.theorems = (
     "C20_bc_tiles_sum",
     "C20_data_key_roundtrip",
     "C20_bc_rank_of_key",
-    "C20_bc_plain_stored_key",
-    "C20_bc_kcyclic_stored_key_partial",
-    "C20_bc_kcyclic_stored_key_refuted",
+    "C20_bc_kcyclic_stored_key",
+    "C20_bc_stored_key_injective",
+    "C20_bc_kcyclic_stored_key_prefix_refuted",
     "C20_bc_vpid_in_range",
     "C20_bc_tile_memory",
     "C20_kview_permutation",
